@@ -149,6 +149,20 @@ size_t ExecImpl::run_range(const std::vector<Op>& ops, size_t i, int level) {
         continue;
       }
     }
+    if (!shadow && op.kind == OP_REQ_DESTRUCTION && (op.a[8] & 2) && level < 8 && !M.live_watched().empty()) {
+      size_t next = i + 1;
+      std::function<void()> body = [&]() { next = run_range(ops, i + 1, level + 1); };
+      ++st.ops[op.kind]; g_last_op_kind = op.kind; ctx_moved_mock = false; ctx_rejected_call = false;
+      { std::ostringstream os; os << "op scoped_req_destruction"; for (int k = 0; k < OP_ARGS; ++k) os << ' ' << op.a[k]; note(os.str()); fp += 'D'; }
+      bool entered_scope = false;
+      ++open_scopes;
+      try { ++depth; --depth; op_req_destruction(op, &body); entered_scope = true; }
+      catch (scope_abort const&) { --open_scopes; if (level > 0) throw; next = unwind_resume; ++open_scopes; }
+      --open_scopes;
+      (void)entered_scope;
+      i = next;
+      continue;
+    }
     step(op, false);
     ++i;
   }
